@@ -1245,7 +1245,7 @@ def run(chk):
         L / "FfcxModel/Generated/RefCells.lean"])
     # value read = basis function at the entity map of the permuted point
     chk.lean("FfcxProofs.C03", ["Ffcx.C03.table_access_spec"], extra_files=[L / "FfcxProofs/Lemmas/GeomIndep.lean"])
-    chk.exhaustive = True  # the finite reference-cell tables are covered completely by `decide`
+    chk.notes["exhaustive_part"] = "the finite reference-cell tables are covered completely by decide; the search part is sampled"
 
     # (b) correspondence
     with lean.Driver("driver_geom") as d:
